@@ -2,7 +2,7 @@
 (* Judgement of recorded runs of real mock-backed nodes (GenericCloud with MockSocket/MockDevice/MockTimeSource under
    the harness's network).  Each record summarises one run of a systematic plan; the formulas below are the node-level
    properties (Node.tla: NoLoss, StaysConnected, BadIsStutter; conservation; deadlines) instantiated for the record. *)
-EXTENDS Integers, Sequences, FiniteSets, TLC, Json, IOUtils
+EXTENDS Integers, Sequences, FiniteSets, TLC, Json, IOUtils, Interval
 
 Rec == ndJsonDeserialize(IOEnv.TRACE)
 N == Len(Rec)
@@ -39,8 +39,31 @@ TrustRunOK(e) ==
   /\ e.panics = 0
   /\ \A a \in 1..e.n : \A b \in 1..e.n : a # b => (e.conn[a][b] <=> (e.trust[a][b] /\ e.trust[b][a]))
 
+\* C15 ---------------------------------------------------------------------------------------------------------------
+SeqSet(s) == {s[i] : i \in 1..Len(s)}
+\* every scheduling of the next announcement observed on a real node (own settings and advertised timeouts any
+\* user-configurable value): no panic, and the delay satisfies Interval!IntervalOK for the timeouts its peers advertise
+IntervalEvOK(e) == /\ e.res = "ok"
+                   /\ e.d >= 0
+                   /\ IntervalOK(e.d, SeqSet(e.adv_seen))
+\* a mesh with stable membership on a delivering network: nobody is ever timed out (all timeouts >= 1 s)
+HeteroOK(e) == e.res = "ok" /\ e.panics = 0 /\ e.mesh /\ e.removals = 0
+LateJoinOK(e) == e.res = "ok" /\ e.panics = 0 /\ e.removals = 0
+\* a peer that fell silent at ts is removed, with its routes, exactly at the first housekeeping tick after
+\* last refresh + own timeout, and re-dialled
+SilenceOK(e) == /\ e.res = "ok" /\ e.last_refresh <= e.ts
+                /\ e.removed_at = e.last_refresh + e.T + 1
+                /\ e.routes_gone /\ e.redialled
+\* a configured peer that never answers is dialled again and again, never more than an hour apart
+BackoffOK(e) == e.panics = 0 /\ e.dials >= 2 /\ e.max_gap <= 3600 + 2 /\ e.tail_gap <= 3600 + 2
+
 Step(e) ==
   CASE e.op = "c09run"  -> C09RunOK(e)
+    [] e.op = "interval" -> IntervalEvOK(e)
+    [] e.op = "hetero" -> HeteroOK(e)
+    [] e.op = "latejoin" -> LateJoinOK(e)
+    [] e.op = "silence" -> SilenceOK(e)
+    [] e.op = "backoff" -> BackoffOK(e)
     [] e.op = "c09skip" -> TRUE
     [] e.op = "nodefam" -> NodeFamOK(e)
     [] e.op = "trustrun" -> TrustRunOK(e)
